@@ -103,7 +103,6 @@ int main(int argc, char **argv) {
 		Plan p; std::string err;
 		if (!p.parse(read_file(av[2]), &err)) { out_line("{\"harness_error\":\"" + json_escape(err) + "\"}"); return 2; }
 		std::string tr; std::string r = run_plan(av[2], p, trace, &tr);
-		if (trace) out_line(tr);
 		out_line(r); return 0;
 	}
 	if (argc >= 2 && av[1] == "--worker") {
